@@ -3,7 +3,7 @@
    (Spec/ModSpec.v). *)
 From Coq Require Import NArith ZArith List Bool Lia.
 From PS Require Import Base.Chars Base.Outcome Model.SString Model.ModBytes Model.Modifiers
-                       Spec.Items Spec.ModSpec Proofs.SStringP.
+                       Spec.Items Spec.ModSpec Proofs.SStringP Proofs.ModSpecP.
 Import ListNotations.
 Open Scope N_scope.
 
@@ -161,3 +161,444 @@ Proof.
   cbn [run_chain]. pose proof (step_values_indep O field applied m st1 st2 E) as H.
   destruct (step O field applied m st1), (step O field applied m st2); cbn in H |- *; try contradiction; auto.
 Qed.
+
+(* ====================================================================================== *)
+(* Refinement: the part-level operations of the code equal the item-level specification   *)
+(* ====================================================================================== *)
+
+(* well-formed part lists: no empty string part, no two adjacent string parts (what the parser
+   and every operation of the model produce; SigmaString.from_str("") is the one exception) *)
+Definition str_empty (s : str) : bool := match s with [] => true | _ => false end.
+Definition starts_pstr (v : sstring) : bool := match v with PStr _ :: _ => true | _ => false end.
+Fixpoint wfp (v : sstring) : bool :=
+  match v with
+  | [] => true
+  | PStr s :: v' => negb (str_empty s) && negb (starts_pstr v') && wfp v'
+  | _ :: v' => wfp v'
+  end.
+Definition nonempty_part (p : part) : bool := match p with PStr [] => false | _ => true end.
+Definition no_empty (v : sstring) : bool := forallb nonempty_part v.
+
+Lemma items_cons p v : items (p :: v) = part_items p ++ items v.
+Proof. reflexivity. Qed.
+
+Lemma items_merge v : items (merge_strs v) = items v.
+Proof.
+  induction v as [|p v IH]; [reflexivity|].
+  destruct p as [a| | |n]; cbn [merge_strs]; rewrite ?items_cons, ?IH; try reflexivity.
+  destruct (merge_strs v) as [|[b| | |m] r] eqn:E; rewrite <- IH, ?items_cons; cbn [part_items];
+    rewrite ?map_app, <- ?app_assoc; reflexivity.
+Qed.
+
+Lemma wfp_tail p v : wfp (p :: v) = true -> wfp v = true.
+Proof. destruct p; cbn [wfp]; rewrite ?andb_true_iff; tauto. Qed.
+Lemma wfp_no_empty v : wfp v = true -> no_empty v = true.
+Proof.
+  induction v as [|p v IH]; [reflexivity|]. intros H. cbn [no_empty forallb]. apply andb_true_iff. split.
+  - destruct p as [[|c s]| | |n]; try reflexivity. discriminate H.
+  - apply IH. exact (wfp_tail _ _ H).
+Qed.
+
+Lemma merge_wfp_id v : wfp v = true -> merge_strs v = v.
+Proof.
+  induction v as [|p v IH]; [reflexivity|]. destruct p as [s| | |n]; cbn [wfp merge_strs]; intros H;
+    try (rewrite IH by exact H; reflexivity).
+  apply andb_true_iff in H. destruct H as [H Hw]. apply andb_true_iff in H. destruct H as [_ Hs].
+  rewrite IH by exact Hw. destruct v as [|[b| | |m] r]; try reflexivity. discriminate Hs.
+Qed.
+
+Lemma merge_no_empty_wfp v : no_empty v = true -> wfp (merge_strs v) = true.
+Proof.
+  induction v as [|p v IH]; [reflexivity|]. cbn [no_empty forallb]. rewrite andb_true_iff. intros [Hp Hv].
+  specialize (IH Hv). destruct p as [a| | |n]; cbn [merge_strs]; try exact IH.
+  destruct a as [|c a]; [discriminate Hp|].
+  destruct (merge_strs v) as [|[b| | |m] r]; cbn [wfp str_empty starts_pstr app negb andb] in *; try exact IH; try reflexivity.
+  apply andb_true_iff in IH. destruct IH as [IH1 IH2]. apply andb_true_iff in IH1. destruct IH1 as [_ IH1].
+  rewrite IH1, IH2. reflexivity.
+Qed.
+
+Lemma no_empty_app a b : no_empty (a ++ b) = no_empty a && no_empty b.
+Proof. apply forallb_app. Qed.
+
+(* ---------- contains / startswith / endswith on strings ---------- *)
+Lemma starts_multi_items v : no_empty v = true ->
+  starts_multi v = match items v with Multi :: _ => true | _ => false end.
+Proof. destruct v as [|[[|c s]| | |n] v]; try reflexivity. discriminate. Qed.
+
+Lemma emi_app a b : b <> [] -> ends_multi_item (a ++ b) = ends_multi_item b.
+Proof.
+  intros Hb. induction a as [|i a IH]; [reflexivity|]. cbn [app].
+  destruct (a ++ b) eqn:E; [destruct a; [subst; contradiction | discriminate E]|].
+  rewrite <- IH. reflexivity.
+Qed.
+Lemma emi_lits s : ends_multi_item (map Lit s) = false.
+Proof. induction s as [|c s IH]; [reflexivity|]. destruct s; [reflexivity|exact IH]. Qed.
+Lemma part_items_nonempty p : nonempty_part p = true -> part_items p <> [].
+Proof. destruct p as [[|c s]| | |n]; cbn; try discriminate; congruence. Qed.
+Lemma items_nonempty v : v <> [] -> no_empty v = true -> items v <> [].
+Proof.
+  destruct v as [|p v]; [congruence|]. intros _ H. cbn [no_empty forallb] in H. apply andb_true_iff in H.
+  destruct H as [H _]. apply part_items_nonempty in H. rewrite items_cons. intros E.
+  apply app_eq_nil in E. tauto.
+Qed.
+
+Lemma ends_multi_items v : no_empty v = true -> ends_multi v = ends_multi_item (items v).
+Proof.
+  induction v as [|p v IH]; [reflexivity|]. intros H. pose proof H as H0.
+  cbn [no_empty forallb] in H. apply andb_true_iff in H. destruct H as [Hp Hv].
+  destruct v as [|q v'].
+  - rewrite items_cons. cbn [items flat_map]. rewrite app_nil_r.
+    destruct p as [[|c s]| | |n]; try reflexivity; try discriminate Hp.
+    cbn [ends_multi is_multi part_items]. symmetry. apply (emi_lits (c :: s)).
+  - change (ends_multi (p :: q :: v')) with (ends_multi (q :: v')). rewrite IH by exact Hv.
+    rewrite (items_cons p). symmetry. apply emi_app. apply items_nonempty; [discriminate | exact Hv].
+Qed.
+
+Theorem add_multi_front_items v : no_empty v = true -> items (add_multi_front v) = sp_front (items v).
+Proof.
+  intros H. unfold add_multi_front, sp_front, sadd. rewrite (starts_multi_items v H).
+  destruct (items v) as [|[c| | |n] l] eqn:E; rewrite ?items_merge; cbn [app]; rewrite ?items_cons, ?E; reflexivity.
+Qed.
+Theorem add_multi_back_items v : no_empty v = true -> items (add_multi_back v) = sp_back (items v).
+Proof.
+  intros H. unfold add_multi_back, sp_back, sadd. rewrite (ends_multi_items v H).
+  destruct (ends_multi_item (items v)); [reflexivity|]. rewrite items_merge, items_app. reflexivity.
+Qed.
+Lemma add_multi_front_wfp v : wfp v = true -> wfp (add_multi_front v) = true.
+Proof.
+  intros H. unfold add_multi_front, sadd. destruct (starts_multi v); [exact H|].
+  apply merge_no_empty_wfp. cbn. apply wfp_no_empty. exact H.
+Qed.
+Lemma add_multi_back_wfp v : wfp v = true -> wfp (add_multi_back v) = true.
+Proof.
+  intros H. unfold add_multi_back, sadd. destruct (ends_multi v); [exact H|].
+  apply merge_no_empty_wfp. rewrite no_empty_app, (wfp_no_empty v H). reflexivity.
+Qed.
+
+(* ---------- windash ---------- *)
+Definition no_ph (v : sstring) : bool := negb (existsb is_ph v).
+Definition not_lit_head (l : istr) : bool := match l with Lit _ :: _ => false | _ => true end.
+
+Lemma variants_prev_irrelevant w l p q : not_lit_head l = true -> variants w p l = variants w q l.
+Proof. destruct l as [|[c| | |n] l]; try reflexivity. discriminate. Qed.
+
+Lemma rp_flush acc X : map items (rp (flush [] acc ++ X)) = map (app (map Lit acc)) (map items (rp X)).
+Proof.
+  destruct acc as [|c acc]; cbn [flush app].
+  - cbn [map]. rewrite map_map. apply map_ext. reflexivity. 
+  - cbn [rp]. rewrite !map_map. apply map_ext. intros y. reflexivity.
+Qed.
+
+Lemma map_flat_map {A B C} (f : B -> C) (g : A -> list B) l :
+  map f (flat_map g l) = flat_map (fun a => map f (g a)) l.
+Proof. induction l as [|a l IH]; [reflexivity|]. simpl. rewrite map_app, IH. reflexivity. Qed.
+
+Lemma wd_scan_refines w R ir :
+  not_lit_head ir = true -> map items (rp R) = variants w false ir ->
+  forall e acc pw,
+    map items (rp (wd_scan w pw e acc ++ R)) = map (app (map Lit acc)) (variants w pw (map Lit e ++ ir)).
+Proof.
+  intros Hnl HR. induction e as [|c e IH]; intros acc pw.
+  - cbn [wd_scan map app]. rewrite rp_flush, HR. rewrite (variants_prev_irrelevant w ir pw false Hnl). reflexivity.
+  - cbn [wd_scan map app]. rewrite variants_lit.
+    assert (Hc: next_is_word w (map Lit e ++ ir) = match e with d :: _ => w d | [] => false end).
+    { destruct e as [|d e]; [|reflexivity]. destruct ir as [|[x| | |n] ir]; try reflexivity. discriminate Hnl. }
+    rewrite Hc. destruct (is_dash c && negb pw && match e with d :: _ => w d | [] => false end).
+    + rewrite <- app_assoc. rewrite rp_flush. f_equal. cbn [app rp].
+      rewrite str_eqb_refl. rewrite !map_flat_map. apply flat_map_ext. intros d.
+      rewrite map_map. specialize (IH [] false). cbn [map] in IH.
+      rewrite <- (map_id (variants w false (map Lit e ++ ir))) at 1.
+      replace (map (fun x => x) (variants w false (map Lit e ++ ir)))
+        with (map (app []) (variants w false (map Lit e ++ ir))) by (apply map_ext; reflexivity).
+      rewrite <- IH. rewrite map_map. apply map_ext. reflexivity.
+    + rewrite IH. rewrite map_map. apply map_ext. intros y. rewrite map_app, <- app_assoc. reflexivity.
+Qed.
+
+Lemma wfp_tail_not_lit s v : wfp (PStr s :: v) = true -> not_lit_head (items v) = true.
+Proof.
+  cbn [wfp]. rewrite !andb_true_iff. intros [[_ Hs] Hv].
+  destruct v as [|[[|c t]| | |n] v]; try reflexivity; discriminate.
+Qed.
+Lemma rwp_items w : forall v, wfp v = true -> no_ph v = true ->
+  map items (rp (replace_with_placeholder w v)) = variants w false (items v).
+Proof.
+  induction v as [|p v IH]; intros Hw Hn; [reflexivity|].
+  assert (Hn': no_ph v = true).
+  { unfold no_ph in *. cbn [existsb] in Hn. apply negb_true_iff in Hn. apply orb_false_iff in Hn.
+    apply negb_true_iff. tauto. }
+  specialize (IH (wfp_tail _ _ Hw) Hn').
+  unfold replace_with_placeholder in *. cbn [flat_map]. destruct p as [s| | |n].
+  - destruct s as [|c s]; [discriminate Hw|]. cbn [rwp_part].
+    rewrite (wd_scan_refines w _ (items v) (wfp_tail_not_lit _ _ Hw) IH (c :: s) [] false).
+    rewrite items_cons. cbn [part_items]. rewrite map_ext with (g := fun x => x); [apply map_id | reflexivity].
+  - cbn [rwp_part app rp]. rewrite map_map. rewrite items_cons. cbn [part_items app variants].
+    rewrite <- IH, map_map. reflexivity.
+  - cbn [rwp_part app rp]. rewrite map_map. rewrite items_cons. cbn [part_items app variants].
+    rewrite <- IH, map_map. reflexivity.
+  - discriminate Hn.
+Qed.
+
+Lemma rp_no_ph X : no_ph X = true -> rp X = [X].
+Proof.
+  induction X as [|p X IH]; [reflexivity|]. unfold no_ph. cbn [existsb]. intros H.
+  apply negb_true_iff in H. apply orb_false_iff in H. destruct H as [Hp HX].
+  destruct p; try discriminate Hp; cbn [rp]; rewrite IH by (apply negb_true_iff; exact HX); reflexivity.
+Qed.
+
+Theorem windash_items w v : wfp v = true -> no_ph v = true ->
+  map items (windash w v) = variants w false (items v).
+Proof.
+  intros Hw Hn. rewrite <- (rwp_items w v Hw Hn). unfold windash, replace_placeholders.
+  destruct (existsb is_ph (replace_with_placeholder w v)) eqn:E.
+  - rewrite map_map. apply map_ext. intros y. apply items_merge.
+  - rewrite rp_no_ph by (unfold no_ph; rewrite E; reflexivity). reflexivity.
+Qed.
+
+(* ---------- expand ---------- *)
+Definition ends_bs (s : str) : bool := match rev s with c :: _ => N.eqb c c_bs | [] => false end.
+Definition starts_pct (s : str) : bool := match s with c :: _ => N.eqb c c_pct | [] => false end.
+
+Lemma ends_bs_snoc s c : ends_bs (s ++ [c]) = N.eqb c c_bs.
+Proof. unfold ends_bs. rewrite rev_app_distr. reflexivity. Qed.
+Lemma ends_bs_cons a b s : ends_bs (a :: b :: s) = ends_bs (b :: s).
+Proof.
+  unfold ends_bs. cbn [rev]. destruct (rev s ++ [b]) eqn:E.
+  - destruct (rev s); discriminate E.
+  - reflexivity.
+Qed.
+
+Lemma unescape_cons2 a b s :
+  unescape_pct (a :: b :: s) =
+  if N.eqb a c_bs && N.eqb b c_pct then c_pct :: unescape_pct s else a :: unescape_pct (b :: s).
+Proof. reflexivity. Qed.
+
+Lemma unescape_app : forall n A X, (length A <= n)%nat ->
+  ends_bs A && starts_pct X = false -> unescape_pct (A ++ X) = unescape_pct A ++ unescape_pct X.
+Proof.
+  induction n as [|n IH]; intros A X Hl H.
+  - destruct A; [reflexivity | simpl in Hl; lia].
+  - destruct A as [|a [|b A]].
+    + reflexivity.
+    + cbn [app]. unfold ends_bs in H. cbn [rev app] in H.
+      destruct X as [|x X]; [reflexivity|]. cbn [starts_pct] in H. cbn [unescape_pct].
+      destruct (N.eqb a c_bs); cbn [andb] in *; [rewrite H|]; reflexivity.
+    + rewrite ends_bs_cons in H. cbn [app]. rewrite !unescape_cons2.
+      assert (Hl1: (length A <= n)%nat) by (simpl in Hl; lia).
+      assert (Hl2: (length (b :: A) <= n)%nat) by (simpl in *; lia).
+      destruct (N.eqb a c_bs && N.eqb b c_pct).
+      * assert (HA: ends_bs A && starts_pct X = false).
+        { destruct A as [|a' A']; [reflexivity|]. rewrite ends_bs_cons in H. exact H. }
+        rewrite (IH A X Hl1 HA). reflexivity.
+      * change (b :: A ++ X) with ((b :: A) ++ X). rewrite (IH (b :: A) X Hl2 H). reflexivity.
+
+Qed.
+
+Lemma take_find s ir : not_lit_head ir = true -> forall acc,
+  take_name (map Lit s ++ ir) acc =
+  match find_pct s acc with Some (nm, rest) => Some (nm, map Lit rest ++ ir) | None => None end.
+Proof.
+  intros Hn. induction s as [|c s IH]; intros acc.
+  - cbn. destruct ir as [|[x| | |n] ir]; try reflexivity. discriminate Hn.
+  - cbn [map app take_name find_pct]. destruct (N.eqb c c_pct); [reflexivity | apply IH].
+Qed.
+Lemma find_pct_length s : forall acc nm rest, find_pct s acc = Some (nm, rest) -> (length rest < length s)%nat.
+Proof.
+  induction s as [|c s IH]; intros acc nm rest H; [discriminate H|]. cbn [find_pct] in H.
+  destruct (N.eqb c c_pct).
+  - inversion H; subst. simpl. lia.
+  - apply IH in H. simpl. lia.
+Qed.
+Lemma take_name_length l : forall acc nm rest, take_name l acc = Some (nm, rest) -> (length rest < length l)%nat.
+Proof.
+  induction l as [|i l IH]; intros acc nm rest H; [discriminate H|]. destruct i; try discriminate H.
+  cbn [take_name] in H. destruct (N.eqb c c_pct).
+  - inversion H; subst. simpl. lia.
+  - apply IH in H. simpl. lia.
+Qed.
+
+(* fuel is irrelevant once it exceeds the length *)
+Lemma sp_fuel : forall n f1 f2 l, (length l <= n)%nat -> (n < f1)%nat -> (n < f2)%nat ->
+  sp_expand_go f1 l = sp_expand_go f2 l.
+Proof.
+  induction n as [|n IH]; intros f1 f2 l Hl H1 H2;
+    (destruct f1 as [|f1]; [lia|]); (destruct f2 as [|f2]; [lia|]);
+    destruct l as [|i l]; try reflexivity; [simpl in Hl; lia|].
+  assert (Hl': (length l <= n)%nat) by (simpl in Hl; lia).
+  cbn [sp_expand_go]. destruct i as [c| | |nm]; try (f_equal; apply IH; lia).
+  destruct (N.eqb c c_pct).
+  - destruct (take_name l []) as [[[|x name] rest]|] eqn:E; try (f_equal; apply IH; lia).
+    f_equal. apply take_name_length in E. apply IH; lia.
+  - destruct (N.eqb c c_bs); [|f_equal; apply IH; lia].
+    destruct l as [|[d| | |nm] l']; try (f_equal; apply IH; lia).
+    destruct (N.eqb d c_pct); f_equal; apply IH; simpl in *; lia.
+Qed.
+
+Lemma sp_go_lit f c l :
+  sp_expand_go (S f) (Lit c :: l) =
+  if N.eqb c c_pct then
+    match take_name l [] with
+    | Some (x :: name, rest) => Ph (x :: name) :: sp_expand_go f rest
+    | _ => Lit c :: sp_expand_go f l
+    end
+  else if N.eqb c c_bs then
+    match l with
+    | Lit d :: l'' => if N.eqb d c_pct then Lit c_pct :: sp_expand_go f l'' else Lit c :: sp_expand_go f l
+    | _ => Lit c :: sp_expand_go f l
+    end
+  else Lit c :: sp_expand_go f l.
+Proof. reflexivity. Qed.
+Lemma ip_scan_cons f pbs c s acc :
+  ip_scan (S f) pbs (c :: s) acc =
+  if N.eqb c c_pct && negb pbs then
+    match find_pct s [] with
+    | Some (x :: name, rest) => flush_u acc ++ PPh (x :: name) :: ip_scan f false rest []
+    | _ => ip_scan f false s (acc ++ [c])
+    end
+  else ip_scan f (N.eqb c c_bs) s (acc ++ [c]).
+Proof. reflexivity. Qed.
+
+Lemma sp_expand_nil : sp_expand [] = [].
+Proof. reflexivity. Qed.
+Lemma sp_expand_nonlit i l :
+  match i with Lit _ => False | _ => True end -> sp_expand (i :: l) = i :: sp_expand l.
+Proof. destruct i; intros H; try contradiction; reflexivity. Qed.
+Lemma sp_expand_lit c l :
+  sp_expand (Lit c :: l) =
+  if N.eqb c c_pct then
+    match take_name l [] with
+    | Some (x :: name, rest) => Ph (x :: name) :: sp_expand rest
+    | _ => Lit c :: sp_expand l
+    end
+  else if N.eqb c c_bs then
+    match l with
+    | Lit d :: l'' => if N.eqb d c_pct then Lit c_pct :: sp_expand l'' else Lit c :: sp_expand l
+    | _ => Lit c :: sp_expand l
+    end
+  else Lit c :: sp_expand l.
+Proof.
+  unfold sp_expand at 1. change (length (Lit c :: l)) with (S (length l)). rewrite sp_go_lit.
+  change (sp_expand_go (S (length l)) l) with (sp_expand l).
+  destruct (N.eqb c c_pct).
+  - destruct (take_name l []) as [[[|x name] rest]|] eqn:E; try reflexivity.
+    f_equal. apply take_name_length in E. apply (sp_fuel (length rest)); lia.
+  - destruct (N.eqb c c_bs); [|reflexivity].
+    destruct l as [|[d| | |nm] l']; try reflexivity.
+    destruct (N.eqb d c_pct); [|reflexivity]. f_equal. apply (sp_fuel (length l')); simpl; lia.
+Qed.
+
+Lemma ip_fuel : forall n f1 f2 s pbs acc, (length s <= n)%nat -> (n < f1)%nat -> (n < f2)%nat ->
+  ip_scan f1 pbs s acc = ip_scan f2 pbs s acc.
+Proof.
+  induction n as [|n IH]; intros f1 f2 s pbs acc Hl H1 H2;
+    (destruct f1 as [|f1]; [lia|]); (destruct f2 as [|f2]; [lia|]);
+    destruct s as [|c s]; try reflexivity; [simpl in Hl; lia|].
+  assert (Hl': (length s <= n)%nat) by (simpl in Hl; lia).
+  cbn [ip_scan]. destruct (N.eqb c c_pct && negb pbs); [|apply IH; lia].
+  destruct (find_pct s []) as [[[|x name] rest]|] eqn:E; try (apply IH; lia).
+  f_equal. f_equal. apply find_pct_length in E. apply IH; lia.
+Qed.
+
+Definition ips (pbs : bool) (s acc : str) : sstring := ip_scan (S (length s)) pbs s acc.
+Lemma ips_nil pbs acc : ips pbs [] acc = flush_u acc.
+Proof. reflexivity. Qed.
+Lemma ips_cons pbs c s acc :
+  ips pbs (c :: s) acc =
+  if N.eqb c c_pct && negb pbs then
+    match find_pct s [] with
+    | Some (x :: name, rest) => flush_u acc ++ PPh (x :: name) :: ips false rest []
+    | _ => ips false s (acc ++ [c])
+    end
+  else ips (N.eqb c c_bs) s (acc ++ [c]).
+Proof.
+  unfold ips at 1. change (length (c :: s)) with (S (length s)). rewrite ip_scan_cons.
+  change (ip_scan (S (length s)) false s (acc ++ [c])) with (ips false s (acc ++ [c])).
+  change (ip_scan (S (length s)) (N.eqb c c_bs) s (acc ++ [c])) with (ips (N.eqb c c_bs) s (acc ++ [c])).
+  destruct (N.eqb c c_pct && negb pbs); [|reflexivity].
+  destruct (find_pct s []) as [[[|x name] rest]|] eqn:E; try reflexivity.
+  f_equal. f_equal. apply find_pct_length in E. apply (ip_fuel (length rest)); lia.
+Qed.
+
+Lemma items_flush_u acc : items (flush_u acc) = map Lit (unescape_pct acc).
+Proof. unfold flush_u. destruct (unescape_pct acc); [reflexivity|]. cbn. rewrite app_nil_r. reflexivity. Qed.
+
+Lemma unescape_snoc A c : ends_bs A && N.eqb c c_pct = false -> unescape_pct (A ++ [c]) = unescape_pct A ++ [c].
+Proof. intros H. rewrite (unescape_app (length A) A [c]); [reflexivity | lia | exact H]. Qed.
+Lemma unescape_snoc_bs_pct A : unescape_pct (A ++ [c_bs; c_pct]) = unescape_pct A ++ [c_pct].
+Proof.
+  rewrite (unescape_app (length A) A [c_bs; c_pct]); [reflexivity | lia |].
+  cbn [starts_pct]. apply andb_false_r.
+Qed.
+
+(* the scanner of the code (lookbehind + replace on the segments) against the item-level reading *)
+Lemma ips_refines ir : not_lit_head ir = true -> forall n s, (length s <= n)%nat -> forall pbs A,
+  (pbs = false -> ends_bs A = false) ->
+  items (ips pbs s (A ++ if pbs then [c_bs] else [])) ++ sp_expand ir =
+  map Lit (unescape_pct A) ++ sp_expand ((if pbs then [Lit c_bs] else []) ++ map Lit s ++ ir).
+Proof.
+  intros Hn. assert (Hir: sp_expand (Lit c_bs :: ir) = Lit c_bs :: sp_expand ir).
+  { rewrite sp_expand_lit. cbn. destruct ir as [|[x| | |nm] ir']; try reflexivity. discriminate Hn. }
+  induction n as [|n IH]; intros s Hl pbs A HA.
+  - destruct s; [|simpl in Hl; lia]. rewrite ips_nil, items_flush_u. destruct pbs; cbn [app map].
+    + rewrite unescape_snoc by (cbn; apply andb_false_r). rewrite map_app, <- app_assoc. cbn [map app].
+      rewrite Hir. reflexivity.
+    + rewrite app_nil_r. reflexivity.
+  - destruct s as [|c s]; [apply (IH []); [simpl; lia | exact HA]|].
+    assert (Hl': (length s <= n)%nat) by (simpl in Hl; lia).
+    rewrite ips_cons. destruct pbs.
+    + (* a backslash is pending *)
+      rewrite andb_false_r. cbn [app map]. rewrite <- app_assoc. cbn [app].
+      rewrite sp_expand_lit. cbn [N.eqb c_bs c_pct Pos.eqb]. 
+      destruct (N.eqb c c_pct) eqn:Ec.
+      * apply N.eqb_eq in Ec. subst c. cbn [N.eqb c_bs c_pct Pos.eqb].
+        specialize (IH s Hl' false (A ++ [c_bs; c_pct])). cbn [app] in IH. rewrite app_nil_r in IH.
+        rewrite IH by (intros _; rewrite (ends_bs_snoc (A ++ [c_bs]) c_pct) || (replace (A ++ [c_bs; c_pct]) with ((A ++ [c_bs]) ++ [c_pct]) by (rewrite <- app_assoc; reflexivity); rewrite ends_bs_snoc; reflexivity)).
+        rewrite unescape_snoc_bs_pct, map_app, <- app_assoc. reflexivity.
+      * destruct (N.eqb c c_bs) eqn:Eb.
+        -- apply N.eqb_eq in Eb. subst c.
+           specialize (IH s Hl' true (A ++ [c_bs])). cbn [app] in IH. rewrite <- app_assoc in IH. cbn [app] in IH.
+           rewrite IH by discriminate.
+           rewrite unescape_snoc by (cbn; apply andb_false_r). rewrite map_app, <- app_assoc. reflexivity.
+        -- specialize (IH s Hl' false (A ++ [c_bs; c])). cbn [app] in IH. rewrite app_nil_r in IH.
+           rewrite IH by (intros _; replace (A ++ [c_bs; c]) with ((A ++ [c_bs]) ++ [c]) by (rewrite <- app_assoc; reflexivity); rewrite ends_bs_snoc; exact Eb).
+           replace (A ++ [c_bs; c]) with ((A ++ [c_bs]) ++ [c]) by (rewrite <- app_assoc; reflexivity).
+           rewrite unescape_snoc by (rewrite Ec; apply andb_false_r).
+           rewrite unescape_snoc by (cbn; apply andb_false_r).
+           rewrite !map_app, <- !app_assoc. cbn [map app].
+           rewrite (sp_expand_lit c). rewrite Ec, Eb. reflexivity.
+    + (* no pending backslash *)
+      specialize (HA eq_refl). rewrite andb_true_r. cbn [app]. rewrite app_nil_r. cbn [map app].
+      rewrite sp_expand_lit. destruct (N.eqb c c_pct) eqn:Ec.
+      * apply N.eqb_eq in Ec. subst c. rewrite (take_find s ir Hn []).
+        destruct (find_pct s []) as [[[|x name] rest]|] eqn:E.
+        -- specialize (IH s Hl' false (A ++ [c_pct])). cbn [app] in IH. rewrite app_nil_r in IH.
+           rewrite IH by (intros _; rewrite ends_bs_snoc; reflexivity).
+           rewrite unescape_snoc by (rewrite HA; reflexivity). rewrite map_app, <- app_assoc. reflexivity.
+        -- rewrite items_app, items_flush_u, items_cons. cbn [part_items]. rewrite <- !app_assoc. cbn [app].
+           f_equal. f_equal. apply find_pct_length in E.
+           specialize (IH rest ltac:(lia) false []). cbn [app unescape_pct map] in IH. apply IH. reflexivity.
+        -- specialize (IH s Hl' false (A ++ [c_pct])). cbn [app] in IH. rewrite app_nil_r in IH.
+           rewrite IH by (intros _; rewrite ends_bs_snoc; reflexivity).
+           rewrite unescape_snoc by (rewrite HA; reflexivity). rewrite map_app, <- app_assoc. reflexivity.
+      * destruct (N.eqb c c_bs) eqn:Eb.
+        -- apply N.eqb_eq in Eb. subst c.
+           specialize (IH s Hl' true A). cbn [app] in IH. rewrite IH by discriminate.
+           f_equal. rewrite sp_expand_lit. reflexivity.
+        -- specialize (IH s Hl' false (A ++ [c])). cbn [app] in IH. rewrite app_nil_r in IH.
+           rewrite IH by (intros _; rewrite ends_bs_snoc; exact Eb).
+           rewrite unescape_snoc by (rewrite Ec; apply andb_false_r). rewrite map_app, <- app_assoc. reflexivity.
+Qed.
+
+Theorem insert_placeholders_items : forall v, wfp v = true ->
+  items (insert_placeholders v) = sp_expand (items v).
+Proof.
+  induction v as [|p v IH]; intros Hw; [reflexivity|].
+  specialize (IH (wfp_tail _ _ Hw)). unfold insert_placeholders in *. cbn [flat_map].
+  rewrite items_app, IH, items_cons. destruct p as [s| | |n].
+  - pose proof (ips_refines (items v) (wfp_tail_not_lit _ _ Hw) (length s) s (le_n _) false [] (fun _ => eq_refl)) as H.
+    cbn [app unescape_pct map] in H. exact H.
+  - cbn [ip_part items flat_map part_items app]. rewrite sp_expand_nonlit; [reflexivity | exact I].
+  - cbn [ip_part items flat_map part_items app]. rewrite sp_expand_nonlit; [reflexivity | exact I].
+  - cbn [ip_part items flat_map part_items app]. rewrite sp_expand_nonlit; [reflexivity | exact I].
+Qed.
+Print Assumptions insert_placeholders_items.
+Print Assumptions windash_items.
